@@ -17,7 +17,10 @@
 (***************************************************************************)
 EXTENDS KmipProps, Json, IOUtils
 
-Traces == JsonDeserialize(IOEnv.TRACE_FILE)
+TraceFile == JsonDeserialize(IOEnv.TRACE_FILE)
+Traces == TraceFile.traces
+\* policy sets are stored once and referenced by index (tr.ps)
+PolSets == TraceFile.polsets
 
 VARIABLES t, l
 vars == <<t, l>>
@@ -36,6 +39,8 @@ ObjsOf(list) == LET us == {list[i].uid : i \in DOMAIN list} IN
 PolOf(p) == [name |-> p.name, hasPreset |-> p.hasPreset, preset |-> Range(p.preset),
              hasGroups |-> p.hasGroups, groups |-> Range(p.groups)]
 PolsOf(list) == {PolOf(list[i]) : i \in DOMAIN list}
+
+PolSetValue == [i \in DOMAIN PolSets |-> PolsOf(PolSets[i])]
 
 StOf(s, ph, pols) == [objs |-> ObjsOf(s.objs), seq |-> s.seq, ph |-> ph, pols |-> pols]
 
@@ -130,20 +135,29 @@ ReqDrift(pre, req, res, post) ==
 
 Step(tr, i) ==
     LET s == tr.steps[i]
-        pols == PolsOf(tr.pols)
+        pols == PolSetValue[tr.ps]
         req == ReqOf(s.req)
         res == s.res
         pre == StOf(s.pre, NoUid, pols)
         post == StOf(s.post, NoUid, pols)
         n == Len(res.items)
-        before(k) == IF k = 1 THEN StOf(s.pre, PhBefore(req, res, k), pols)
-                     ELSE StOf(s.mids[k - 1], PhBefore(req, res, k), pols)
+        \* an identifier-less item that succeeds although the batch created nothing before it
+        \* violates C11/C08c (reported once as C11_placeholder); the remaining clauses are then
+        \* evaluated against the object it actually addressed, so the defect is not reported
+        \* again under every other property
+        stale(k) == /\ PhBefore(req, res, k) = NoUid
+                    /\ Addresses(req.items[k]) /\ req.items[k].p.uid = NoUid
+                    /\ res.items[k].status = "Success" /\ Len(res.items[k].uids) > 0
+        ph(k) == IF stale(k) THEN res.items[k].uids[1] ELSE PhBefore(req, res, k)
+        before(k) == IF k = 1 THEN StOf(s.pre, ph(k), pols)
+                     ELSE StOf(s.mids[k - 1], ph(k), pols)
         after(k) == StOf(s.mids[k], NoUid, pols)
         seen(k) == Range(s.issued) \cup UNION {DOMAIN before(j).objs : j \in 1..k}
         ghost(k) == [issued |-> seen(k) , dead |-> seen(k) \ DOMAIN before(k).objs]
         itemFails == IF res.kind = "resp" /\ Len(s.mids) = n
                      THEN [k \in 1..n |-> FailedClauses(before(k), req, req.items[k], res.items[k], after(k), ghost(k))
-                             \cup (IF Addresses(req.items[k]) /\ req.items[k].p.uid = NoUid /\ before(k).ph = NoUid
+                             \cup (IF Addresses(req.items[k]) /\ req.items[k].p.uid = NoUid
+                                      /\ PhBefore(req, res, k) = NoUid
                                       /\ res.items[k].status = "Success" THEN {"C11_placeholder"} ELSE {})]
                      ELSE <<>>
         reqFails == ReqFailed(s, req, res, pre, post)
@@ -151,11 +165,13 @@ Step(tr, i) ==
     IN /\ \A k \in DOMAIN itemFails :
             itemFails[k] # {} => PrintT("@V@" \o ToJson([tid |-> tr.tid, i |-> i, k |-> k, clauses |-> itemFails[k]]))
        /\ reqFails # {} => PrintT("@V@" \o ToJson([tid |-> tr.tid, i |-> i, k |-> 0, clauses |-> reqFails]))
-       /\ drift # {} => PrintT("@D@" \o ToJson([tid |-> tr.tid, i |-> i, what |-> drift]))
+       /\ drift # {} => PrintT("@D@" \o ToJson([tid |-> tr.tid, i |-> i, what |-> drift,
+                                               model |-> LET m == RunRequest(pre, req) IN
+                                                         [k \in DOMAIN m.items |-> <<m.items[k].status, m.items[k].reason>>]]))
 
 RestartStep(tr, i) ==
     \* a restart must leave the store as it was (C05/C07/C09 restart halves)
-    LET s == tr.steps[i] pols == PolsOf(tr.pols) IN
+    LET s == tr.steps[i] pols == PolSetValue[tr.ps] IN
     StOf(s.pre, NoUid, pols) # StOf(s.post, NoUid, pols)
        => PrintT("@V@" \o ToJson([tid |-> tr.tid, i |-> i, k |-> 0, clauses |-> {"C09_restart"}]))
 
